@@ -36,6 +36,8 @@ CheckFun(e) ==
 
 \* The same scenario as a problem with its FIRST objective only (one objective, no constraint, an explicit weight other
 \* than one): the objective value is unchanged and the single weight normalises to one.
+\* (events with shift # 0: the evaluator returned every value plus 2^20 - a deviation is invariant under such a shift, so the
+\*  expectation is that of the unshifted column; only deviation scenarios are replayed that way)
 CheckOne(e) ==
   LET s == Scen(e)
       x == Eval(s)
